@@ -205,7 +205,7 @@ def gen(seed, tier):
             if m.next(e) is None:
                 e['done'] = True
                 break
-    for _ in range(rng.randrange(3, 31)):
+    for _ in range(rng.randrange(3, 31 * (2 if tier == 'thorough' else 1))):
         k = rng.random()
         ki = rng.choice(keys)
         key = KEYS[ki]
